@@ -104,6 +104,23 @@ constants/tables.)
   vocabulary -> violated; bypass only through other uses of the chunk (another decode path, a give-back seek, a
   content test) or no decode step located -> undecided.  That the decoded word reaches the returned bytes exactly
   once is C09.R2's accounting (imported, R9).
+* R12 (what an extraction returns is a function of the payload at hand: no answer is looked up *by file object* in a
+  store that outlives the call - the same file object, e.g. a recycled BytesIO or a scratch file, holds another payload
+  the next time): 1 only (syntax-tree queries, resolved callees, call graph, who-may-write).  Scope = call-graph
+  descendants of from_file / from_path / from_bytes plus all methods of the classes constructed on the way (file views
+  are driven through the io protocol).  File objects are located by role: a parameter on which read/seek/tell/readinto
+  is called, propagated backwards through argument binding into resolved package callees / constructors and through
+  `self.<attr> = <param>` where the class calls the io protocol on `self.<attr>` (fixpoint over call sites).  Subjects:
+  (a) item / get / setdefault / pop / membership lookups whose root object is module-level or class-level (not shadowed
+  by an instance attribute) and that some function body of the package writes to (item store/delete, mutating method,
+  rebinding under `global`); the key expression, with single-definition temporaries substituted, mentions a file object
+  itself / `id()` / an attribute / a non-reading method of it -> violated; it mentions the file object only as receiver
+  of a call that reads its bytes, or not at all -> undecided (whether the stored answer depends on an earlier payload is
+  not followed); stores nobody writes at run time (constant tables) are not subjects.  (b) a memoising decorator
+  (`_memoising`) on a function in scope one of whose parameters is a file object -> violated; memoised functions of
+  other arguments are keyed by value and are not subjects.  (c) an attribute that a function in scope stores on a
+  file-object parameter (assignment or `setattr` with a literal name) and a function in scope reads back (attribute load
+  that is not a method call, `getattr`/`hasattr` with that literal) -> violated.  Nothing located -> discharged.
 """
 
 from __future__ import annotations
@@ -142,7 +159,10 @@ def run(ctx):
         "place is an object private to the call (R10: no memoised / module-level / caller-owned list carries the byte "
         "frequency order of one payload into the next extraction); the XorEncoded view drops no non-empty chunk it read "
         "from the underlying file - also not the last, shorter word of a payload (R11: CFG paths under 'chunk not "
-        "empty', chunk tests decided in the length domain). The scanner's offset algebra "
+        "empty', chunk tests decided in the length domain); no function an extraction runs takes an answer out of a store "
+        "that outlives the call (module-/class-level object written at run time, memoised function, attribute planted on the "
+        "caller's file object) looked up by the file object - the same file object may hold another payload the next time "
+        "(R12: call graph, file objects located by their use of the io protocol, who-may-write). The scanner's offset algebra "
         "obligations of C15 are imported (R8). Decides these structural necessary conditions; does not decide that "
         "decoded settings equal the embedded ones for all payloads."
     )
@@ -154,9 +174,14 @@ def run(ctx):
         "frequency ordering of the 254 left-over keys (only that the re-ordered list is private to the call, R10)",
         "search phases merged into one loop over a collection of file views are followed only when the collection is a "
         "literal list/tuple (optionally grown by append() before the loop); other collections are undecided",
+        "run-time-written long-lived stores that are consulted on the extraction path under a key that is not a file object "
+        "(or is derived from bytes read from it): undecided (R12 does not follow what the stored value depends on); state kept "
+        "in closures, function attributes or outside the package is not seen by R12",
     ]
     rep.trusted_base = ["CPython ast", "networkx dominators", "C-definition parser (csverif.cdefs)",
-                        "io model for R11: read(k) returns between 0 and k bytes, any such length at the end of the data"]
+                        "io model for R11: read(k) returns between 0 and k bytes, any such length at the end of the data",
+                        "R12: the package call graph (resolved callees) plus the methods of every class constructed during extraction cover "
+                        "the code an extraction runs; decorators named *cache*/*memo* memoise by argument identity/equality"]
     rep.assumptions = ["iter_find_needle reports true offsets (C15 obligations, imported as R8)"]
     r1_r2(ctx)
     r3(ctx)
@@ -165,6 +190,7 @@ def run(ctx):
     r8(ctx)
     r10(ctx)
     r11(ctx)
+    r12(ctx)
     # blocks inside XorEncoded stages are found by scanning and then re-reading the decoding file view: its position
     # algebra and nonce chaining (C09.R1-R3) are necessary conditions here as well
     from rules import c09
@@ -2056,6 +2082,309 @@ def r11(ctx):
             ctx.undecided("R11", "DOM", f, text, f"after `{src(R)}` the decode step can be bypassed, but only through statements that use the chunk in a way "
                           "this rule does not follow (another decode path, a give-back) or through a test on the chunk that is not a statement about its "
                           "length (content test, length arithmetic other than a comparison with a constant)", R)
+
+
+# ============================================================================ R12
+_FILE_PROTOCOL = {"read", "seek", "tell", "readinto"}
+_CONTENT_READS = {"read", "getvalue", "getbuffer", "peek", "readall", "readline"}
+_STORE_READS = {"get", "setdefault", "pop", "__getitem__", "__contains__"}
+_STORE_WRITES = _MUTATORS | {"add", "discard", "appendleft", "extendleft", "move_to_end"}
+_ENTRY_POINTS = (FQ_FROM_FILE, "beacon.BeaconConfig.from_path", "beacon.BeaconConfig.from_bytes")
+
+
+def _cls_fq(f):
+    return f"{f.module.name}.{f.cls}" if f.cls else None
+
+
+def _extraction_scope(ctx):
+    """Package functions an extraction may run: call-graph descendants of the three entry points, plus every method of
+    a class that is constructed on the way (file views are driven through the io protocol, which the call graph does not
+    resolve).  The entry points' own class contributes its constructor only (its other methods run after extraction)."""
+    g = ctx.rs.callgraph()
+    roots = [fq for fq in _ENTRY_POINTS if ctx.repo.has_func(fq)]
+    own = {_cls_fq(ctx.repo.func(fq)) for fq in roots}
+    seen, work = set(roots), list(roots)
+    while work:
+        fq = work.pop()
+        nxt = set(g.successors(fq)) if fq in g else set()
+        if ctx.repo.has_func(fq):
+            f = ctx.repo.func(fq)
+            c = _cls_fq(f)
+            if c is not None and c not in own and f.qualname.endswith(".__init__"):
+                nxt |= {m.fq for m in ctx.repo.methods(c)}
+        for x in nxt - seen:
+            seen.add(x)
+            work.append(x)
+    return [ctx.repo.func(fq) for fq in sorted(seen) if ctx.repo.has_func(fq)]
+
+
+def _first_param(f):
+    """the receiver parameter (self / cls) of a method, else None"""
+    if f.cls is None:
+        return None
+    decs = {dotted(d) for d in getattr(f.node, "decorator_list", [])}
+    if "staticmethod" in decs:
+        return None
+    ps = params(f.node)
+    return ps[0] if ps else None
+
+
+def _file_objects(ctx, scope):
+    """(function fq, parameter) pairs and (class fq, attribute) pairs that denote a file object, by role: the io protocol
+    (read/seek/tell) is called on it, or it is handed to such a parameter of a resolved package callee / stored into
+    such an attribute by the constructor (fixpoint over the call sites; syntax tree + resolved callees)."""
+    fparams, fattrs = set(), set()
+    for f in scope:
+        recv = _first_param(f)
+        for c in fn_calls(f.node):
+            if not (isinstance(c.func, ast.Attribute) and c.func.attr in _FILE_PROTOCOL):
+                continue
+            r = c.func.value
+            if isinstance(r, ast.Name) and r.id in params(f.node) and r.id != recv:
+                fparams.add((f.fq, r.id))
+            elif isinstance(r, ast.Attribute) and isinstance(r.value, ast.Name) and recv is not None and r.value.id == recv and f.cls:
+                fattrs.add((_cls_fq(f), r.attr))
+    changed = True
+    while changed:
+        changed = False
+        for f in scope:
+            recv = _first_param(f)
+            ps = set(params(f.node)) - {recv}
+            # constructor / method stores a parameter into a file attribute
+            for st in statements(f.node):
+                if isinstance(st, (ast.Assign, ast.AnnAssign)) and st.value is not None:
+                    tgts = st.targets if isinstance(st, ast.Assign) else [st.target]
+                    v = strip_cast(st.value)
+                    for t in tgts:
+                        if (isinstance(t, ast.Attribute) and isinstance(t.value, ast.Name) and t.value.id == recv and f.cls
+                                and (_cls_fq(f), t.attr) in fattrs and isinstance(v, ast.Name) and v.id in ps and (f.fq, v.id) not in fparams):
+                            fparams.add((f.fq, v.id))
+                            changed = True
+            for c in fn_calls(f.node):
+                cal = ctx.rs.resolve_call(f, c)
+                h, skip = None, False
+                if cal.kind == "func" and cal.func is not None:
+                    h = cal.func
+                    skip = _first_param(h) is not None and isinstance(c.func, ast.Attribute)
+                elif cal.kind == "class":
+                    h, skip = ctx.rs.class_init(cal.fq), True
+                if h is None:
+                    continue
+                try:
+                    b = bind_args(c, h.node, skip_self=skip)
+                except Exception:
+                    continue
+                for q, a in b.items():
+                    if a is None or (h.fq, q) not in fparams:
+                        continue
+                    a = strip_cast(a)
+                    if isinstance(a, ast.Name) and a.id in ps and (f.fq, a.id) not in fparams:
+                        fparams.add((f.fq, a.id))
+                        changed = True
+    return fparams, fattrs
+
+
+def _store_root(e):
+    """the object a lookup / store expression digs into: X for X[k], X[k][j], X.get(k), X.setdefault(k, {})[j] ..."""
+    while True:
+        if isinstance(e, ast.Subscript):
+            e = e.value
+        elif isinstance(e, ast.Call) and isinstance(e.func, ast.Attribute) and e.func.attr in (_STORE_READS | _STORE_WRITES):
+            e = e.func.value
+        else:
+            return e
+
+
+def _long_lived(ctx, f, e):
+    """name of the module-level / class-level object expression e denotes in function f, or None"""
+    fn = f.node
+    if isinstance(e, ast.Name):
+        local = set(params(fn)) | {n.id for n in body_walk(fn) if isinstance(n, ast.Name) and isinstance(n.ctx, ast.Store)}
+        declared = {x for n in body_walk(fn) if isinstance(n, ast.Global) for x in n.names}
+        if (e.id not in local or e.id in declared) and e.id in f.module.consts:
+            return f"{f.module.name}.{e.id}"
+        return None
+    if isinstance(e, ast.Attribute) and isinstance(e.value, ast.Name):
+        base, c = e.value.id, None
+        if base == _first_param(f) and f.cls:
+            c = _cls_fq(f)
+        elif base in f.module.classes and base not in params(fn):
+            c = f"{f.module.name}.{base}"
+        if c is not None:
+            try:
+                attrs = ctx.repo.class_attrs(c)
+            except Exception:
+                return None
+            if e.attr in attrs:
+                # an instance attribute of the same name (assigned through the receiver) shadows the class-level object
+                for m in ctx.repo.methods(c):
+                    r = _first_param(m)
+                    for n in body_walk(m.node):
+                        if (isinstance(n, ast.Attribute) and isinstance(n.ctx, ast.Store) and n.attr == e.attr
+                                and isinstance(n.value, ast.Name) and n.value.id == r and "classmethod" not in {dotted(d) for d in m.node.decorator_list}):
+                            return None
+                return f"{c}.{e.attr}"
+    return None
+
+
+def _store_accesses(ctx, f):
+    """(kind, store name, key expression | None, node) for every access of function f to a module-/class-level object:
+    kind "write" (item store / delete, mutating method, rebinding of a declared global) or "read" (item load, get /
+    setdefault / pop, membership test, plain load of a rebound global)."""
+    out = []
+    fn = f.node
+    declared = {x for n in body_walk(fn) if isinstance(n, ast.Global) for x in n.names}
+    for n in body_walk(fn):
+        if isinstance(n, ast.Subscript):
+            name = _long_lived(ctx, f, _store_root(n))
+            if name:
+                out.append(("read" if isinstance(n.ctx, ast.Load) else "write", name, n.slice, n))
+        elif isinstance(n, ast.Call) and isinstance(n.func, ast.Attribute) and n.func.attr in (_STORE_READS | _STORE_WRITES):
+            name = _long_lived(ctx, f, _store_root(n))
+            if name:
+                key = n.args[0] if n.args else None
+                if n.func.attr in _STORE_WRITES:
+                    out.append(("write", name, key, n))
+                if n.func.attr in _STORE_READS:
+                    out.append(("read", name, key, n))
+        elif isinstance(n, ast.Compare) and any(isinstance(o, (ast.In, ast.NotIn)) for o in n.ops) and len(n.ops) == 1:
+            name = _long_lived(ctx, f, _store_root(n.comparators[0]))
+            if name:
+                out.append(("read", name, n.left, n))
+        elif isinstance(n, ast.Name) and n.id in declared and n.id in f.module.consts:
+            out.append(("write" if isinstance(n.ctx, (ast.Store, ast.Del)) else "load", f"{f.module.name}.{n.id}", None, n))
+        elif isinstance(n, ast.AugAssign):
+            name = _long_lived(ctx, f, _store_root(n.target))
+            if name and not isinstance(n.target, ast.Subscript):
+                out.append(("write", name, None, n))
+    return out
+
+
+def _file_identity_in(ctx, f, key, fparams, fattrs):
+    """How does the key expression depend on a file object?  "identity": it mentions the object itself (or id() / an
+    attribute / a non-reading method of it); "content": only through a call that reads its bytes; None: not at all."""
+    from csverif.q import inline
+
+    fn = f.node
+    recv = _first_param(f)
+    try:
+        key = inline(fn, key)
+    except Exception:
+        pass
+    content_recv, hits = set(), []
+    for n in ast.walk(key):
+        if isinstance(n, ast.Call) and isinstance(n.func, ast.Attribute) and n.func.attr in _CONTENT_READS:
+            content_recv.add(id(n.func.value))
+    for n in ast.walk(key):
+        is_file = False
+        if isinstance(n, ast.Name) and isinstance(n.ctx, ast.Load) and (f.fq, n.id) in fparams:
+            is_file = True
+        elif isinstance(n, ast.Name) and isinstance(n.ctx, ast.Load) and n.id == recv and f.cls and "read" in {m.qualname.rsplit(".", 1)[-1] for m in ctx.repo.methods(_cls_fq(f))} \
+                and "classmethod" not in {dotted(d) for d in fn.decorator_list}:
+            is_file = True  # the instance of a file view class
+        elif isinstance(n, ast.Attribute) and isinstance(n.value, ast.Name) and n.value.id == recv and f.cls and (_cls_fq(f), n.attr) in fattrs:
+            is_file = True
+        if is_file:
+            hits.append("content" if id(n) in content_recv else "identity")
+    if "identity" in hits:
+        return "identity"
+    return "content" if hits else None
+
+
+def r12(ctx):
+    """What an extraction returns is a function of the payload at hand (and of the key options): the functions an
+    extraction runs must not take an answer out of a store that outlives the call and is filled at run time, looked up
+    by the file object - the same file object (a recycled BytesIO, a scratch file opened w+b) holds another payload the
+    next time, and the answer computed for the previous content (found / not found, container layout, nonce offset)
+    would be returned without looking at the bytes.  Located: (a) item / get / membership lookups in a module-level or
+    class-level object that some function of the package writes to; (b) a memoising decorator on a function that takes a
+    file object; (c) an attribute that package code plants on the caller's file object and reads back."""
+    text = "answer is computed from the payload at hand, not looked up by file object in a store that outlives the call"
+    scope = _extraction_scope(ctx)
+    if not scope or not ctx.repo.has_func(FQ_FROM_FILE):
+        ctx.undecided("R12", "ALIAS", "beacon.py", text, "extraction entry points not located")
+        return
+    fparams, fattrs = _file_objects(ctx, scope)
+    if not any(fq == FQ_BLOCKS or fq == FQ_FROM_FILE for fq, _ in fparams):
+        ctx.undecided("R12", "ALIAS", ctx.repo.func(FQ_FROM_FILE), text, "no file-object parameter located on the extraction path (the io protocol is not "
+                      "called on any parameter reachable from the entry points)")
+        return
+    # who writes which long-lived object at run time (whole package: a store filled elsewhere is still a store)
+    written = {}
+    for g in ctx.repo.all_funcs():
+        for kind, name, key, n in _store_accesses(ctx, g):
+            if kind == "write":
+                written.setdefault(name, []).append(g.fq)
+    n_sites = 0
+    for f in scope:
+        # (a) lookups in run-time-written stores
+        seen = set()
+        for kind, name, key, n in _store_accesses(ctx, f):
+            if kind not in ("read", "load") or name not in written:
+                continue
+            short = name.split(".", 1)[1]
+            if kind == "load" or key is None:
+                if (name, "load") in seen:
+                    continue
+                seen.add((name, "load"))
+                n_sites += 1
+                ctx.undecided("R12", "ALIAS", f, f"{text}: {short}", f"{short} is rebound / changed at run time (by {', '.join(sorted(set(written[name])))}) and read on "
+                              "the extraction path; whether what is stored there depends on an earlier payload is not followed", n)
+                continue
+            dep = _file_identity_in(ctx, f, key, fparams, fattrs)
+            tag = (name, dep)
+            if tag in seen:
+                continue
+            seen.add(tag)
+            n_sites += 1
+            by = ", ".join(sorted(set(written[name])))
+            if dep == "identity":
+                ctx.ob("R12", "ALIAS", f, f"{text}: {short}", False,
+                       f"`{src(n)[:70]}` looks an answer up in {short}, an object that outlives the call and is filled at run time (by {by}), under the "
+                       "file object itself: the key identifies the object, not its bytes - when the same file object holds another payload "
+                       "(recycled buffer, rewritten scratch file) the answer computed for the previous content is returned and the payload at hand is "
+                       "not looked at (a block under a tried key is missed / a stale container layout is used)", n)
+            else:
+                ctx.undecided("R12", "ALIAS", f, f"{text}: {short}", f"`{src(n)[:70]}` consults {short}, which outlives the call and is filled at run time (by {by}); the key "
+                              + ("is derived from bytes read from the file object" if dep == "content" else "does not mention a file object")
+                              + " - whether the stored answer depends on an earlier payload is not followed", n)
+        # (b) memoised function of a file object
+        decs = list(getattr(f.node, "decorator_list", []))
+        memo = [d for d in decs if _memoising(d)]
+        if memo:
+            fps = [p for p in params(f.node) if (f.fq, p) in fparams]
+            if fps:
+                n_sites += 1
+                ctx.ob("R12", "ALIAS", f, f"{text}: memoised {f.qualname}", False,
+                       f"{f.fq} runs during extraction, takes a file object (parameter {', '.join(fps)}) and is memoised ({', '.join(src(d) for d in memo)}): the "
+                       "stored result is keyed by the identity of the file object, not by its bytes - a second payload in the same file object gets the "
+                       "answer computed for the first", f.node)
+    # (c) state planted on the caller's file object
+    planted, consulted = {}, {}
+    for f in scope:
+        for n in body_walk(f.node):
+            if isinstance(n, ast.Attribute) and isinstance(n.value, ast.Name) and (f.fq, n.value.id) in fparams:
+                if isinstance(n.ctx, ast.Store):
+                    planted.setdefault(n.attr, (f, n))
+            if isinstance(n, ast.Call) and dotted(n.func) in ("setattr", "getattr", "hasattr") and len(n.args) >= 2 \
+                    and isinstance(n.args[0], ast.Name) and (f.fq, n.args[0].id) in fparams and isinstance(n.args[1], ast.Constant):
+                (planted if dotted(n.func) == "setattr" else consulted).setdefault(n.args[1].value, (f, n))
+    for f in scope:
+        for n in body_walk(f.node):
+            if isinstance(n, ast.Attribute) and isinstance(n.ctx, ast.Load) and n.attr in planted and isinstance(n.value, ast.Name) and (f.fq, n.value.id) in fparams:
+                par = FuncView.of(f.node).parent(n)
+                if not (isinstance(par, ast.Call) and par.func is n):
+                    consulted.setdefault(n.attr, (f, n))
+    for a in sorted(set(planted) & set(consulted), key=str):
+        f, n = consulted[a]
+        n_sites += 1
+        ctx.ob("R12", "ALIAS", f, f"{text}: attribute {a} of the file object", False,
+               f"`{src(n)[:70]}` reads attribute {a} that {planted[a][0].fq} plants on the caller's file object: the note survives the call and is "
+               "not invalidated when the content of the file object changes - the next payload in the same object gets the answer of the previous one", n)
+    if n_sites == 0:
+        ctx.ob("R12", "ALIAS", ctx.repo.func(FQ_FROM_FILE), text, True,
+               f"none of the {len(scope)} functions an extraction runs consults a module-/class-level object that is written at run time, none that takes "
+               "a file object is memoised, none reads back an attribute planted on the file object", nontrivial=False)
 
 
 # ============================================================================ R8
